@@ -18,9 +18,10 @@ usage: gen_from_source.py [--src DIR] [--out FILE] [--out-conv FILE]      (defau
 """
 import re, sys, os, argparse
 from types import SimpleNamespace
-SRC = '/repo/src'
-OUT = '/verif/lean/SfxModel/Generated.lean'
-OUT_CONV = '/verif/lean/SfxModel/GeneratedConv.lean'
+VERIF = os.environ.get('SFX_VERIF') or os.path.dirname(os.path.dirname(os.path.abspath(__file__)))
+SRC = os.environ.get('SFX_REPO', '/repo') + '/src'
+OUT = VERIF + '/lean/SfxModel/Generated.lean'
+OUT_CONV = VERIF + '/lean/SfxModel/GeneratedConv.lean'
 
 def need(m, what):
     if not m:
